@@ -18,14 +18,17 @@ import (
 // NodeSpec describes one node.
 type NodeSpec struct {
 	Key       string `json:"key"`
-	Kind      string `json:"kind"`             // lambda | pass | graph
-	In        string `json:"in,omitempty"`     // lambda parameter type S | M | A; for pass: the type that flows
-	InputKey  string `json:"ik,omitempty"`     // WithInputKey
-	OutputKey string `json:"ok,omitempty"`     // WithOutputKey
-	Digest    bool   `json:"dg,omitempty"`     // body hashes long inputs (keeps values short in cycles)
-	Para      string `json:"para,omitempty"`   // native paradigms, subset of "ISCT" ("" = "I")
-	Chunks    int    `json:"ch,omitempty"`     // number of chunks a natively streaming body emits (0 = 1)
-	Sub       *Spec  `json:"sub,omitempty"`    // graph node
+	Kind      string `json:"kind"`           // lambda | pass | graph
+	In        string `json:"in,omitempty"`   // lambda parameter type S | M | A; for pass: the type that flows
+	InputKey  string `json:"ik,omitempty"`   // WithInputKey
+	OutputKey string `json:"ok,omitempty"`   // WithOutputKey
+	Digest    bool   `json:"dg,omitempty"`   // body hashes long inputs (keeps values short in cycles)
+	Para      string `json:"para,omitempty"` // native paradigms, subset of "ISCT" ("" = "I")
+	Chunks    int    `json:"ch,omitempty"`   // number of chunks a natively streaming body emits (0 = 1)
+	Sub       *Spec  `json:"sub,omitempty"`  // graph node
+	// ViaLambda (graph nodes of graphs and workflows): the nested graph is compiled on its own and run from inside
+	// a lambda node with the node's context; the lambda wraps the error it hands back (%w)
+	ViaLambda bool   `json:"vialambda,omitempty"`
 	Static    string `json:"static,omitempty"` // workflow node with map input: SetStaticValue(FieldPath{Static}, "static")
 
 	Gate  bool   `json:"gate,omitempty"`  // body waits for the completion controller
